@@ -314,6 +314,78 @@ def _value_case(e):
     return (dotted(e), neg)
 
 
+class _NoTable(Exception):
+    pass
+
+
+def _sym_eval(e, env, defs, depth=0):
+    """Evaluate a boolean array expression under an assignment of the two
+    bounded-ness masks -> ("const", bool) | ("v", array name, negated?)."""
+    if isinstance(e, ast.Constant) and isinstance(e.value, bool):
+        return ("const", e.value)
+    if isinstance(e, ast.Name):
+        if e.id in env:
+            return ("const", env[e.id])
+        if e.id in defs and depth < 4:
+            try:
+                return _sym_eval(defs[e.id], env, defs, depth + 1)
+            except _NoTable:
+                pass
+        return ("v", e.id, False)
+    if isinstance(e, ast.UnaryOp) and isinstance(e.op, (ast.Invert, ast.Not)):
+        v = _sym_eval(e.operand, env, defs, depth)
+        return ("const", not v[1]) if v[0] == "const" else \
+            ("v", v[1], not v[2])
+    args = None
+    kind = None
+    if isinstance(e, ast.BinOp) and isinstance(e.op, (ast.BitAnd, ast.BitOr)):
+        args = [e.left, e.right]
+        kind = "and" if isinstance(e.op, ast.BitAnd) else "or"
+    elif isinstance(e, ast.Call) and dotted(e.func) in (
+            "np.logical_and", "np.logical_or") and len(e.args) == 2:
+        args = list(e.args)
+        kind = "and" if dotted(e.func).endswith("and") else "or"
+    elif isinstance(e, ast.Call) and dotted(e.func) == "np.logical_not" \
+            and len(e.args) == 1:
+        v = _sym_eval(e.args[0], env, defs, depth)
+        return ("const", not v[1]) if v[0] == "const" else \
+            ("v", v[1], not v[2])
+    if args is not None:
+        a, b = (_sym_eval(x, env, defs, depth) for x in args)
+        for x, y in ((a, b), (b, a)):
+            if x[0] == "const":
+                if kind == "and":
+                    return y if x[1] else ("const", False)
+                return ("const", True) if x[1] else y
+        if a == b:
+            return a
+        raise _NoTable("conjunction of two data arrays")
+    if isinstance(e, ast.Call) and dotted(e.func) == "np.where" \
+            and len(e.args) == 3:
+        c = _sym_eval(e.args[0], env, defs, depth)
+        if c[0] != "const":
+            raise _NoTable("np.where on a data array")
+        return _sym_eval(e.args[1 if c[1] else 2], env, defs, depth)
+    if isinstance(e, ast.Subscript):
+        return _sym_eval(e.value, env, defs, depth)
+    raise _NoTable(f"expression {type(e).__name__}")
+
+
+def _full_table(cases, default):
+    """cases: [(frozenset of (mask, polarity), (array, negated))] applied in
+    order over a constant default -> {(s, o): value}"""
+    t = {}
+    for s in (True, False):
+        for o in (True, False):
+            val = ("const", default)
+            for mc, v in cases:
+                if all({"s_aff": s, "o_aff": o}.get(nm) == pol
+                       for nm, pol in mc):
+                    val = ("v", v[0], v[1])
+            t[(s, o)] = val
+    return t
+
+
 def rule_k2(ctx):
     r = ctx.r
     r.rule("K2", "the case table (self bounded?, other bounded?) -> (array, "
@@ -413,16 +485,71 @@ def rule_k2(ctx):
                         f"CP1Disk.{mname}: unrecognised pairwise mask "
                         f"{dotted(n.args[1])}")
                 pair.append((mc, _value_case(n.args[2]), n))
-        if len(elem) < 3 or len(pair) < 3:
+        if len(elem) == 0 and len(pair) >= 3:
+            # the elementwise arm written as one expression (nested
+            # np.where / & / |): compare the full 2 x 2 tables
+            rets = [x for x in ast.walk(elem_arm) if isinstance(x, ast.Return)
+                    and x.value is not None]
+            dflt = None
+            for x in ast.walk(f.node):
+                if isinstance(x, ast.Assign) and dotted(x.targets[0]) == "res" \
+                        and isinstance(x.value, ast.Call) \
+                        and dotted(x.value.func) == "np.full" \
+                        and len(x.value.args) == 2 and isinstance(
+                            x.value.args[1], ast.Constant):
+                    dflt = bool(x.value.args[1].value)
+            if len(rets) == 1 and dflt is not None:
+                try:
+                    te4 = {(sv, ov): _sym_eval(rets[0].value,
+                                               {"s_aff": sv, "o_aff": ov},
+                                               defs)
+                           for sv in (True, False) for ov in (True, False)}
+                except _NoTable as ex:
+                    raise AnalysisError(
+                        f"CP1Disk.{mname}: elementwise expression not "
+                        f"followed ({ex})")
+                tp4 = _full_table([(mc, v) for mc, v, _ in pair], dflt)
+                diff = sorted(k for k in te4 if te4[k] != tp4[k])
+
+                def nm(k):
+                    return ("self " + ("bounded" if k[0] else "unbounded")
+                            + ", other "
+                            + ("bounded" if k[1] else "unbounded"))
+
+                def sv(v):
+                    return str(v[1]) if v[0] == "const" else \
+                        ("~" if v[2] else "") + v[1]
+                if not diff:
+                    r.ok("K2", f"{mname}:case-table", loc(f, rets[0]), "",
+                         "elementwise expression and pairwise masks give "
+                         "the same 2 x 2 table")
+                else:
+                    k = diff[0]
+                    r.violation(
+                        "K2", f"{f.fq}|case-table", loc(f, rets[0]),
+                        norm_stmt(rets[0])[:160],
+                        f"for {nm(k)} the elementwise arm answers "
+                        f"{sv(te4[k])} where the pairwise arm answers "
+                        f"{sv(tp4[k])}" + (f" ({len(diff)} of 4 cases "
+                                           "differ)" if len(diff) > 1 else "")
+                        + ": one of the two decides a bounded/unbounded "
+                        "case with the wrong array",
+                        instance=f"{mname}:case-table")
+                elem = None
+        if elem is not None and (len(elem) < 3 or len(pair) < 3):
             raise AnalysisError(
                 f"CP1Disk.{mname}: expected 3 cases per arm, found "
                 f"{len(elem)} elementwise / {len(pair)} pairwise")
-        te = {(mc, v) for mc, v, _ in elem}
+        te = {(mc, v) for mc, v, _ in (elem or [])}
         tp = {(mc, v) for mc, v, _ in pair}
+        if elem is None:
+            te = tp
 
         def show(t):
             return sorted((sorted(mc), v) for mc, v in t)
-        if te == tp:
+        if elem is None:
+            pass
+        elif te == tp:
             r.ok("K2", f"{mname}:case-table", loc(f, f.node), "",
                  f"both arms: {show(te)}")
         else:
